@@ -8,6 +8,7 @@ from fractions import Fraction
 import numpy as np
 
 from common import close, frac, qtok, run_driver_parallel, tokq
+import shapleylib
 
 RULE = ("cases = complete games on n = 1..10 players given as value vectors, classes: random int / dyadic (k/64) / float "
         "(asymmetric on purpose), one-hot games g = c*1_S (every S for n <= 5 quick / n <= 7 thorough, sampled above; they "
@@ -250,6 +251,17 @@ def run(ctx, proof):
                           {"n": n, "g": [float(x) for x in g], "pi": pi, "shapley_g": sg, "shapley_relabelled": sw})
         if asymmetric(n, g):
             ctx.nontrivial.add(("relabel", n, tuple(pi), tuple(float(x) for x in g)))
+
+    # in-Coq shard: the same cases evaluated by vm_compute on the Gallina model; must equal the extracted model's output
+    shard = [(c, out) for c, out in zip(cases, outs) if c["n"] <= 6]
+    rng.shuffle(shard)
+    shard = shard[: (30 if ctx.quick else 200)]
+    exprs = ["sh_all %d (sh_game_of_list %s)" % (c["n"], shapleylib.qlist(c["v"])) for c, _ in shard]
+    coq_vals = shapleylib.eval_in_coq(ctx, "c06", exprs)
+    for (c, out), cv in zip(shard, coq_vals):
+        if cv != parse_model(out)[0]:
+            mism.append((c, f"extracted model {parse_model(out)[0]} != vm_compute inside Coq {cv}"))
+    ctx.coverage["in_coq_vm_compute_shard"] = len(shard)
 
     report(ctx, mism)
     ctx.coverage["exhaustive"] = False
